@@ -970,7 +970,8 @@ def q_responder_block_order(o, tier):
     `delete_appointments(_, true)` is reachable only after check_confirmations and before the reorg/rebroadcast handling, the
     non-refunding `delete_appointments(_, false)` only after handle_reorged_txs or rebroadcast_stale_txs; these are the only
     two deletion sites; every completed path updates the carrier height and the tx index first and clears the carrier's
-    receipts last."""
+    receipts last; and every path on which a step handed trackers over for deletion (Vec::extend) reaches the non-refunding
+    deletion."""
     funcs, idx, t_mir, err = load_mir('teos')
     if funcs is None:
         return {'verdict': 'inconclusive', 'reason': 'MIR dump failed'}
@@ -1008,6 +1009,11 @@ def q_responder_block_order(o, tier):
         if DN in c and not ((HR in c and c.index(HR) < c.index(DN)) or (RB in c and c.index(RB) < c.index(DN))):
             return True
         if c.count(DR) > 1 or c.count(DN) > 1:
+            return True
+        # whatever a step hands over for deletion (Vec::extend of the rejected trackers) reaches the non-refunding deletion,
+        # unless the collected list is tested and found empty
+        ext = [k for k, x in enumerate(c) if x == 'Vec::extend' or re.search(r'Vec<.*> as Extend<.*>>::extend', x)]
+        if ext and DN not in c[ext[-1] + 1:] and not any(e[0] == 'branch' and e[1] == 'Vec::is_empty' and e[2] != '0' for e in r):
             return True
         if not (CC in c and RB in c and UH in c and CR in c and c.index(UH) < c.index(CC) and c.index(RB) < c.index(CR)):
             return True
